@@ -392,6 +392,14 @@ def value_array_subscripts(prog, chk, R, rule):
             continue
         g = prog.cfg(f)
         canon = Canon(prog, f)
+        # locals that hold the length of a container and are never written again
+        written = {SX.strip(w_[0]).get('id') for x_ in SX.walk(f.body) for w_ in [SX.write_target(x_)] if w_ and SX.is_node(SX.strip(w_[0])) and SX.strip(w_[0]).get('k') == 'ref'}
+        size_locals = {}
+        for v_ in SX.walk(f.body, into_lambdas=False):
+            if v_.get('k') == 'var' and v_.get('id') and v_['id'] not in written and SX.is_node(v_.get('init')):
+                i_ = _peel(SX.strip(v_['init']))
+                if SX.is_node(i_) and i_.get('k') == 'mcall' and SX.short(i_.get('callee', '')) == 'size' and not SX.real_args(i_):
+                    size_locals[v_['id']] = SX.show(i_)
         for n in SX.walk(f.body, into_lambdas=False):
             if n['k'] != 'index' or 'callee' not in n or not n.get('bt', '').replace('const ', '').startswith('std::vector<'):
                 continue
@@ -417,6 +425,9 @@ def value_array_subscripts(prog, chk, R, rule):
                     if cp:
                         op = cp[0] if pol else {'<': '>=', '>=': '<', '>': '<=', '<=': '>'}.get(cp[0], cp[0])
                         l, r = SX.show(_peel(cp[1])), SX.show(_peel(cp[2]))
+                        rr = _peel(cp[2])
+                        if SX.is_node(rr) and rr.get('k') == 'ref' and rr.get('kind') == 'var' and rr.get('id') in size_locals:
+                            r = size_locals[rr['id']]       # `const size_t length = arr.intArray.size();` (a helper's parameter after inlining)
                         if l == itxt and r == btxt + '.size()' and op == '<':
                             hi = True
                             if 'unsigned' in idx.get('t', ''):
